@@ -508,6 +508,11 @@ func (ro *RedisOutput) sendRdb(pctx context.Context, reader ChannelReader) error
 					return e.Err
 				}
 				if e.Done {
+					// the parser met an end marker : it has to be the end of the snapshot the
+					// source announced, a damaged snapshot can show one (and a zero checksum) earlier
+					if rb := readBytes.Load(); nsize > 0 && rb != nsize {
+						return errors.Join(pkgCommon.ErrCorrupted, fmt.Errorf("rdb ended after %d of %d bytes", rb, nsize))
+					}
 					fullDone.Store(true)
 					return nil
 				}
